@@ -834,6 +834,30 @@ func exact(b []byte) []byte {
 	return c[:len(c):len(c)]
 }
 
+// roomy returns a copy of b whose backing array goes on for 96 more bytes (all `fill`): the bytes a receive buffer
+// holds after a partial message.  They are not part of the input.
+func roomy(b []byte, fill byte) []byte {
+	c := make([]byte, len(b)+96)
+	copy(c, b)
+	for i := len(b); i < len(c); i++ {
+		c[i] = fill
+	}
+	return c[:len(b)]
+}
+
+// guardedUnpackIn decodes exactly the slice given (no copy).
+func guardedUnpackIn(in []byte, dotu bool) (r unpackResult) {
+	func() {
+		defer func() {
+			if p := recover(); p != nil {
+				r.panicked = p
+			}
+		}()
+		r.fc, r.consumed, r.err = go9p.Unpack(in, dotu)
+	}()
+	return
+}
+
 func guardedUnpack(buf []byte, dotu bool, measure bool) (r unpackResult) {
 	in := exact(buf)
 	var a0 uint64
